@@ -39,7 +39,7 @@ Section Relex.
     end.
 
   Definition lex_with (L : blexer) (text : string) : option (list (nat * string)) :=
-    match lex_from m text L 0 with
+    match lex_from lower m text L 0 with
     | (ts, AtEOF) => conv_toks text ts
     | _ => None
     end.
@@ -64,7 +64,7 @@ Section Relex.
             match scan m text (lx_mres L) q with
             | Some (t, k) => Nat.eqb k (String.length x) && negb (Nat.eqb k 0)
                              && negb (mem_string (tname t) (lx_ign L))
-                             && onat_eqb (name_index names (report m (lx_terms L) t x)) (Some n)
+                             && onat_eqb (name_index names (report lower m (lx_terms L) t x)) (Some n)
             | None => false
             end
             && bc_b L text (q + String.length x) x rest)
